@@ -648,6 +648,7 @@ pub fn generate(profile: &str, seed: u64, n_ops: usize, blob: bool) -> History {
                             w: Wm::Zero,
                         });
                         if rng.chance(1, 2) {
+                            ops.push(Op::FlushActive(Wm::Zero));
                             ops.push(Op::Reopen);
                             st.live_snaps.clear();
                         }
